@@ -134,6 +134,8 @@ pub struct CanaryReport {
     pub clock_pid_live: bool,
     pub fork_server_live: bool,
     pub distinct_outputs: usize,
+    /// "0,1;0,2,1;…" per canary key, as the real process printed it
+    pub orders_per_key: Vec<String>,
     pub note: String,
 }
 
@@ -148,6 +150,7 @@ pub fn exec_canary(args: &Args) -> CanaryReport {
         clock_pid_live: false,
         fork_server_live: false,
         distinct_outputs: 0,
+        orders_per_key: vec![],
         note: String::new(),
     };
     if let Err(e) = fs::create_dir_all(&dir) {
@@ -187,6 +190,7 @@ pub fn exec_canary(args: &Args) -> CanaryReport {
     }
     let distinct: BTreeSet<&Vec<u8>> = outputs.iter().collect();
     report.distinct_outputs = distinct.len();
+    report.orders_per_key = outputs.iter().map(|o| String::from_utf8_lossy(o).into_owned()).collect();
     report.entropy_live = distinct.len() >= 2;
     report.entropy_repeatable = repeatable;
     report.layout_controlled = layout_same && repeatable;
@@ -249,11 +253,12 @@ pub fn exec_canary(args: &Args) -> CanaryReport {
 }
 
 /// Canary of the in-process seam: iteration orders as seen by a worker process under given keys.
-pub fn inproc_canary(args: &Args) -> (bool, bool, usize) {
+pub fn inproc_canary(args: &Args) -> (bool, bool, usize, Vec<String>) {
     let Ok(mut w) = WorkerProc::spawn(args) else {
-        return (false, false, 0);
+        return (false, false, 0, vec![]);
     };
-    let mut rng = Rng::derive(args.seed, 0xCA7B, 0);
+    // the same keys as the exec canary, so that the two tiers can be compared with each other
+    let mut rng = Rng::derive(args.seed, 0xCA7A, 0);
     let mut outputs = vec![];
     let mut repeatable = true;
     for _ in 0..6 {
@@ -266,13 +271,25 @@ pub fn inproc_canary(args: &Args) -> (bool, bool, usize) {
                 if a != b {
                     repeatable = false;
                 }
-                outputs.push(a.to_string());
+                // same rendering as shim/canary.rs: "0,1;0,2,1;…;"
+                let mut text = String::new();
+                if let Some(sets) = a.get("orders").and_then(Value::as_array) {
+                    for set in sets {
+                        let items: Vec<String> = set
+                            .as_array()
+                            .map(|v| v.iter().map(|x| x.as_u64().unwrap_or(0).to_string()).collect())
+                            .unwrap_or_default();
+                        text.push_str(&items.join(","));
+                        text.push(';');
+                    }
+                }
+                outputs.push(text);
             }
             _ => repeatable = false,
         }
     }
     let distinct: BTreeSet<&String> = outputs.iter().collect();
-    (distinct.len() >= 2, repeatable, distinct.len())
+    (distinct.len() >= 2, repeatable, distinct.len(), outputs.clone())
 }
 
 #[derive(Default)]
@@ -465,12 +482,22 @@ pub fn run_main(args: &Args) -> i32 {
 
     // Canaries first: a dead seam makes everything look deterministic.
     let canary = exec_canary(args);
-    let (ip_live, ip_repeatable, ip_distinct) = inproc_canary(args);
+    let (ip_live, ip_repeatable, ip_distinct, ip_orders) = inproc_canary(args);
+    // Both tiers implement the same seam: the same key must induce the same iteration orders in
+    // the real process and in a launch thread.
+    let tiers_agree = !ip_orders.is_empty() && ip_orders == canary.orders_per_key;
     println!(
         "canary: exec entropy live={} repeatable={} distinct={} fork-server={} | layout controlled={} skew acts={} | inproc live={} repeatable={} distinct={}",
         canary.entropy_live, canary.entropy_repeatable, canary.distinct_outputs, canary.fork_server_live,
         canary.layout_controlled, canary.layout_skew_acts && canary.clock_pid_live, ip_live, ip_repeatable, ip_distinct
     );
+    if !tiers_agree {
+        eprintln!(
+            "HARNESS-ERROR: the same keys induce different iteration orders in the two tiers: exec {:?} vs inproc {:?}",
+            canary.orders_per_key, ip_orders
+        );
+        return finish(2);
+    }
     if !(canary.entropy_live && canary.entropy_repeatable && canary.clock_pid_live && canary.fork_server_live && ip_live && ip_repeatable) {
         eprintln!("HARNESS-ERROR: entropy seam is not live or not repeatable ({})", canary.note);
         return finish(2);
@@ -680,6 +707,7 @@ pub fn run_main(args: &Args) -> i32 {
             "inproc_entropy_seam_live": ip_live,
             "inproc_entropy_seam_repeatable": ip_repeatable,
             "inproc_canary_distinct_outputs": ip_distinct,
+            "tiers_agree_on_orders_per_key": tiers_agree,
         },
         "inconclusive_groups": inconclusive,
         "discarded_groups": discarded,
